@@ -364,6 +364,30 @@ def key_usage_rules(chk):
     chk.floor('suites with a verified expected key type', n, 40)
 
 
+def resumption_rules(chk):
+    """RFC 5246 7.4.1.3 / F.1.4: an empty session_id in the ServerHello means "not resumable"; the client may take the abbreviated
+    handshake (no Certificate, no key exchange) only when the server echoes the non-empty ID the client offered."""
+    R = 'resumption-needs-session-id'
+    P = t0.Program('hs_client')
+    L = P.layouts
+    o_sid = L.field(P.ctxname, 'eng.session.session_id')[0]
+    o_pad = L.field(P.ctxname, 'eng.pad')[0]
+    I = t0ai.Interp(P).run_entry()
+    cm = [e for e in I.events if e.name == 'memcmp' and {a.c for a in e.args[:2] if a.isconst()} == {o_sid, o_pad}]
+    inst = 'hs_client: the offered session ID is compared with the ServerHello ID over a non-zero length'
+    if not cm:
+        chk.violation(R, inst, P.src, 'no comparison of session_id with the received ID found', key='%s none' % R)
+        return
+    for e in cm:
+        lo, hi = e.st.rng(e.args[2])
+        if lo >= 1 and hi <= 32:
+            chk.ok(R, inst, P.src, 'W%d@%d length in [%d, %d]' % (e.word, e.pc, lo, hi))
+        else:
+            chk.violation(R, inst, P.src, 'W%d@%d: the compared length ranges over [%s, %s]: with length 0 the comparison succeeds vacuously and a server that '
+                          'sends an empty session ID makes the client resume (skipping Certificate and key exchange) under the stale master secret'
+                          % (e.word, e.pc, lo, hi), key='%s len' % R)
+
+
 def run(tier):
     chk = report.Check('C03', tier,
                        'Static necessary conditions: in both handshake interpreters every store that sets bit 0 of application_data is preceded, on '
@@ -382,5 +406,6 @@ def run(tier):
         t0kernel.check(chk, key)
     c_helpers(chk)
     key_usage_rules(chk)
+    resumption_rules(chk)
     chk.floor('rule instances', len(chk.obls), 30)
     return chk.finish()
